@@ -115,9 +115,19 @@ impl CommandParser {
             .iter()
             .filter_map(|input| {
                 if let FnArg::Typed(PatType { pat, ty, attrs, .. }) = input {
-                    if let syn::Pat::Ident(pat_ident) = pat.as_ref() {
-                        // Tauri names the argument of a raw identifier (r#type) without its prefix
-                        let name = pat_ident.ident.unraw().to_string();
+                    // Tauri names the argument of a raw identifier (r#type) without its prefix, and
+                    // a destructured argument (`Point { x, y }: Point`, `Id(id): Id`) after the
+                    // struct of its pattern
+                    let ident = match pat.as_ref() {
+                        syn::Pat::Ident(pat_ident) => Some(&pat_ident.ident),
+                        syn::Pat::Struct(pattern) => pattern.path.segments.last().map(|s| &s.ident),
+                        syn::Pat::TupleStruct(pattern) => {
+                            pattern.path.segments.last().map(|s| &s.ident)
+                        }
+                        _ => None,
+                    };
+                    if let Some(ident) = ident {
+                        let name = ident.unraw().to_string();
 
                         // Skip Tauri-specific parameters
                         if self.is_tauri_parameter_type(ty) {
